@@ -118,6 +118,8 @@ def analyse(repo: Repo) -> ScanInfo:
                 elif src[0] == "comp":
                     conds = [c for _tg, _it, cs in src[3] for c in cs]
                     elems = [(src[2], f_and([known, *conds]))]
+                elif src[0] == "yields":
+                    elems = [(v, f_and([known, g])) for g, v in src[1]]
                 else:
                     info.problems.append(f"module names are added in bulk from `{show(src, 80)}`")
                     continue
